@@ -293,7 +293,7 @@ def expectations(case):
                 elif cl[0] == "divdep":
                     a = rules.ints(sim.calculate(name, rules.mk_period(cl[2])))
                     if all(x % cl[3] == 0 for x in a):
-                        out.append(["value", [x // cl[3] for x in a], cl[3]])
+                        out.append(["value", [x // cl[3] for x in a], cl[3], "quotient"])
                     else:
                         out.append(None)
                 else:
@@ -341,6 +341,9 @@ def oracle(case, obs):
         elif ex[0] == "value":
             if isinstance(a, Err):
                 return f"refused: request {k} {r} is in scope but raised {a.kind} ({a.msg})"
+            if a != ex[1] and len(ex) > 3:
+                return (f"quotient: request {k} {r} (DIVIDE dependency) returned {a}, the value at the enclosing "
+                        f"definition period over the {ex[2]} requested unit(s) it holds is {ex[1]}")
             if a != ex[1]:
                 return (f"sum: request {k} {r} returned {a}, the independent computation over "
                         f"{ex[2]} piece(s) gives {ex[1]}")
@@ -569,8 +572,8 @@ IN_SCOPE_ADD = [("day", "day"), ("day", "month"), ("day", "year"), ("month", "mo
 
 
 def generate(rng, tier):
-    reps = {"quick": 1, "escalated": 3, "thorough": 12}[tier]
-    extra = {"quick": 130, "escalated": 500, "thorough": 3000}[tier]
+    reps = {"quick": 1, "escalated": 3, "thorough": 6}[tier]
+    extra = {"quick": 130, "escalated": 500, "thorough": 1500}[tier]
     cases = []
     for _ in range(reps):
         by_du = {du: [] for du in UNITS}
